@@ -358,6 +358,13 @@ class Check(CheckBase):
             if rv['met'] and 'error' not in rv:
                 counters['slot_probes_reached_N'] = counters.get('slot_probes_reached_N', 0) + 1
                 return
+            # a lost slot stays lost: the same object is probed once more before anything is concluded (a loaded machine can
+            # make one probe time out), then a fresh object the same way
+            again = await one(repo)
+            if again is not None and again['met'] and 'error' not in again:
+                counters['slot_probes_reached_N'] = counters.get('slot_probes_reached_N', 0) + 1
+                counters['slot_probes_second_chance'] = counters.get('slot_probes_second_chance', 0) + 1
+                return
             fresh = await rep.unlocked(be, key, concurrent=N)
             rv2 = await one(fresh)
             if rv2 is not None and rv2['met'] and 'error' not in rv2:
